@@ -1,7 +1,10 @@
 //! T flavour ("threads"): jubako's threads, locks, condvars, channels and pools run as shuttle
 //! tasks under a scheduler the simulator owns; one execution = (code, workload, decisions).
 
+mod c01;
+mod c07;
 mod c08;
+mod c13;
 mod exec;
 mod sched;
 mod tcheck;
@@ -67,6 +70,9 @@ fn main() {
     let args = parse_args();
     match args.cmd.as_str() {
         "c08" => dispatch(&c08::C08, &args),
+        "c07" => dispatch(&c07::C07, &args),
+        "c01" => dispatch(&c01::C01, &args),
+        "c13" => dispatch(&c13::C13, &args),
         other => simcore::harness_error(&format!("unknown command {other:?}")),
     }
 }
